@@ -1214,8 +1214,16 @@ func (c *compiler) Stmt(stmt ast.Stmt) {
 	case *ast.Pass:
 		// Do nothing
 	case *ast.Break:
-		l := c.loops.Top()
-		if l == nil {
+		// try, except, finally and with blocks are on the loop stack too
+		// so look for a real loop rather than just anything
+		inLoop := false
+		for i := range c.loops {
+			if c.loops[i].Type == loopLoop {
+				inLoop = true
+				break
+			}
+		}
+		if !inLoop {
 			c.panicSyntaxErrorf(node, "'break' outside loop")
 		}
 		c.Op(vm.BREAK_LOOP)
